@@ -994,6 +994,8 @@ func opReferenceChangeJournal(ctx context.Context, pc *uint64, interpreter *EVMI
 			stateBytes = append(stateBytes, currentRawState[:]...)
 			referenceSlot.Add(referenceSlot, one)
 		}
+		// the last data slot is only partly occupied
+		stateBytes = stateBytes[:length]
 	}
 
 	err = interpreter.tracer.SaveStateChange(contract, &storageSlot, nil, typeId.Bytes32(), stateBytes)
